@@ -288,6 +288,9 @@ func (e *Exec) locOf(p *PtrV) Loc {
 		k, t := fieldKey(p.Root, p.Path)
 		return Loc{Key: k, Idx: []*Term{p.Base}, T: t}
 	case PElem:
+		if k, obj, ok := embOf(p.Arr); ok {
+			return Loc{Key: k, Idx: []*Term{obj, p.Idx}, T: p.Elem}
+		}
 		return Loc{Key: elemKey(p.Elem), Idx: []*Term{p.Arr, p.Idx}, T: p.Elem}
 	}
 	panic(unsupported("load/store through pointer to whole array"))
@@ -761,6 +764,11 @@ func (e *Exec) instr(st *State, fr *Frame, ins ssa.Instruction) {
 		fr.env[x] = e.binop(st, fr, x.Op, e.val(fr, x.X), e.val(fr, x.Y), x.X.Type(), x.Y.Type(), x.Pos())
 	case *ssa.Store:
 		p := e.val(fr, x.Addr).(*PtrV)
+		if sv, ok := e.val(fr, x.Val).(*SliceV); ok {
+			if _, _, emb := embOf(sv.Arr); emb {
+				panic(unsupported("a slice of an array field is stored in memory (such views are only tracked in registers)"))
+			}
+		}
 		e.guaranteeAt(st, fr, x, p, e.val(fr, x.Val))
 		e.store(st, fr, p, e.val(fr, x.Val), x.Pos())
 	case *ssa.FieldAddr:
@@ -871,8 +879,15 @@ func (e *Exec) indexAddr(st *State, fr *Frame, x *ssa.IndexAddr) Value {
 			return &PtrV{Kind: PElem, Arr: a.Arr, Idx: i, Elem: a.Elem}
 		}
 		if a.Kind == PObj {
-			// pointer to an array stored inside an object (struct field or cell): materialise not supported
-			panic(unsupported("indexing an array embedded in a struct through a pointer"))
+			// pointer to an array stored inside an object (struct field or cell): an element of the field's own component
+			l := e.locOf(a)
+			at, ok := l.T.Underlying().(*types.Array)
+			if !ok || len(components(at.Elem())) != 1 {
+				panic(unsupported("indexing a non-scalar array embedded in a struct through a pointer"))
+			}
+			e.nilCheck(st, fr, a, x.Pos())
+			e.oblige(st, fr, "safe.index", x.Pos(), BVUlt(i, BVConst(uint64(at.Len()), 64)))
+			return &PtrV{Kind: PElem, Arr: embArr(l.Key+".adata", l.Idx[0]), Idx: i, Elem: at.Elem()}
 		}
 	}
 	panic(unsupported("IndexAddr on " + describeValue(e.val(fr, x.X))))
